@@ -1,13 +1,13 @@
 package main
 
 import (
-	"strings"
 	"bytes"
-	"io/ioutil"
 	"encoding/json"
 	"fmt"
+	"io/ioutil"
 	"math"
 	"strconv"
+	"strings"
 
 	"github.com/tyler-sommer/stick"
 	"github.com/tyler-sommer/stick/twig"
